@@ -136,8 +136,8 @@ bool linepart::array::apply(const transform &tr, int dim, span<const double> src
 				old.usr = len;
 			}
 			pt = tr.part(dim, val, old.usr);
-			// minimize leading line
-			if (old._cut > pt._cut) {
+			// minimize leading line (nothing to cut without drawn points)
+			if (pt.usr && old._cut > pt._cut) {
 				pt._cut = old._cut;
 			}
 			// partial segment
@@ -152,7 +152,7 @@ bool linepart::array::apply(const transform &tr, int dim, span<const double> src
 					pt.raw = old.raw;
 				}
 				// minimize trailing line
-				if (old._trim > pt._trim) {
+				if (pt.usr && old._trim > pt._trim) {
 					pt._trim = old._trim;
 				}
 				// continue in next part
